@@ -308,7 +308,7 @@ def network(draw, noisy=None, kinds=None):
         for k, p in enumerate(pts):
             # (a constrained component without given coordinates would make the datum depend on which observation
             # gama happens to use for the approximate position)
-            if p["ne"] == "free" and p["u"] == "free" and draw(st.booleans()):
+            if p["ne"] == "free" and p["u"] == "free" and abs(p["b"]) < 89 * DEG and draw(st.booleans()):
                 p["given"] = "none"
                 p["d"] = [0, 0, 0]
 
